@@ -10,6 +10,18 @@ import (
 // If the system-specific or Go-specific error cannot be mapped to anything, it
 // will be logged and EIO will be returned.
 func ExtractErrno(err error) Errno {
+	// An errno carried in the chain is the most precise answer; look for it
+	// before the generic os.Err* classes, which several different errnos
+	// match (syscall.EPERM is os.ErrPermission, syscall.ENOTEMPTY is
+	// os.ErrExist, ...) and which would otherwise rewrite it.
+	var errnoFirst Errno
+	if errors.As(err, &errnoFirst) {
+		return errnoFirst
+	}
+	if e := sysErrno(err); e != 0 {
+		return e
+	}
+
 	for _, pair := range []struct {
 		error
 		Errno
